@@ -598,7 +598,12 @@ class ScenarioGen:
                            (23, 59)])
             if hm == (24, 0):
                 self.feat("environment.time-24:00")
-            env = Environment(Time(*hm), self.cyc(tods), self.cyc(weathers), self.cyc(unders))
+            tm = Time(*hm)
+            if self.fmt == "pb" and self.cyc([False, True]):
+                # the protobuf time stamp also has fields for the calendar date of the fictive start time
+                tm = Time(hm[0] % 24, hm[1], day=r.randint(1, 28), month=r.randint(1, 12), year=r.randint(1990, 2090))
+                self.feat("environment.time-with-date")
+            env = Environment(tm, self.cyc(tods), self.cyc(weathers), self.cyc(unders))
         loc = Location(r.randint(1, 10 ** 7), round(r.uniform(-90, 90), r.choice([2, 6, 12])),
                        self.real(180) if self.hostile else 11.5, geo, env)
         dt = r.choice([0.1, 0.04, 0.5, 1, 0.02]) if not self.hostile else r.choice([0.1, 0.04, 1, 1e-5, 0.000123, 0.5])
